@@ -18,13 +18,17 @@ package main
 // the API through which grpc lower-cases keys.
 // Every case is sent twice through the same middleware instance.
 // Oracle: the handler's context carries a non-empty string request ID; it is the trusted
-// inbound value truncated to the limit when the configuration trusts a header and that header
-// carries a non-empty value, a fresh identifier (never seen, not derived from any inbound
-// value) otherwise.
+// inbound value truncated to the limit — its first min(len, limit) BYTES, byte for byte — when
+// the configuration trusts a header and that header carries a non-empty value, a fresh
+// identifier (never seen, not derived from any inbound value) otherwise. On gRPC the ID the
+// middleware writes back into the incoming metadata of the handler's context must be that
+// same ID. Inbound values include multi-byte UTF-8 (limits falling inside a character) and
+// bytes >= 0x80 that are not UTF-8 (see inboundValues).
 
 import (
 	"bufio"
 	"context"
+	"encoding/hex"
 	"encoding/json"
 	"fmt"
 	"io"
@@ -57,6 +61,78 @@ type reqidCase struct {
 	SentX string `json:"sent_x,omitempty"`
 	SentC string `json:"sent_c,omitempty"`
 	Via   string `json:"via,omitempty"` // http only: "" = net/http request parser in process, "server" = real server and client
+}
+
+// Header / metadata values are byte strings; JSON strings are not (encoding/json replaces bytes
+// that are not UTF-8). A value that is not valid UTF-8 is written as {"hex": "..."} so that state
+// keys stay injective and replay files re-execute the very bytes.
+type reqidCaseJSON struct {
+	Transport  string          `json:"transport"`
+	Opts       []string        `json:"opts"`
+	CustomName string          `json:"custom_name"`
+	Limit      *int            `json:"limit"`
+	LimitFirst bool            `json:"limit_first"`
+	X          json.RawMessage `json:"x_request_id"`
+	C          json.RawMessage `json:"custom"`
+	SentX      string          `json:"sent_x,omitempty"`
+	SentC      string          `json:"sent_c,omitempty"`
+	Via        string          `json:"via,omitempty"`
+}
+
+func encodeValue(v *string) json.RawMessage {
+	switch {
+	case v == nil:
+		return json.RawMessage("null")
+	case utf8.ValidString(*v):
+		b, _ := json.Marshal(*v)
+		return b
+	}
+	b, _ := json.Marshal(map[string]string{"hex": hex.EncodeToString([]byte(*v))})
+	return b
+}
+
+func decodeValue(raw json.RawMessage) (*string, error) {
+	if len(raw) == 0 || string(raw) == "null" {
+		return nil, nil
+	}
+	var s string
+	if err := json.Unmarshal(raw, &s); err == nil {
+		return &s, nil
+	}
+	var h struct {
+		Hex string `json:"hex"`
+	}
+	if err := json.Unmarshal(raw, &h); err != nil {
+		return nil, err
+	}
+	b, err := hex.DecodeString(h.Hex)
+	if err != nil {
+		return nil, err
+	}
+	s = string(b)
+	return &s, nil
+}
+
+func (cs reqidCase) MarshalJSON() ([]byte, error) {
+	return json.Marshal(reqidCaseJSON{cs.Transport, cs.Opts, cs.CustomName, cs.Limit, cs.LimitFirst,
+		encodeValue(cs.X), encodeValue(cs.C), cs.SentX, cs.SentC, cs.Via})
+}
+
+func (cs *reqidCase) UnmarshalJSON(b []byte) error {
+	var j reqidCaseJSON
+	if err := json.Unmarshal(b, &j); err != nil {
+		return err
+	}
+	x, err := decodeValue(j.X)
+	if err != nil {
+		return err
+	}
+	c, err := decodeValue(j.C)
+	if err != nil {
+		return err
+	}
+	*cs = reqidCase{j.Transport, j.Opts, j.CustomName, j.Limit, j.LimitFirst, x, c, j.SentX, j.SentC, j.Via}
+	return nil
 }
 
 const defaultReqIDHeader = "X-Request-Id"
@@ -138,6 +214,9 @@ type reqidObs struct {
 	Present  bool
 	IsString bool
 	ID       string
+	// gRPC: the x-request-id values of the incoming metadata the handler's context carries
+	// (the middleware writes the request ID back there)
+	MD []string
 }
 
 type fakeStream struct {
@@ -194,6 +273,12 @@ func observeReqID(ctx context.Context, o *reqidObs) {
 	o.ID, o.IsString = v.(string)
 }
 
+func observeReqIDMetadata(ctx context.Context, o *reqidObs) {
+	if md, ok := metadata.FromIncomingContext(ctx); ok {
+		o.MD = append([]string{}, md.Get(grpcm.RequestIDMetadataKey)...)
+	}
+}
+
 // execReqID sends the case's request n times through one middleware instance (real goa code).
 func execReqID(cs reqidCase, n int) ([]reqidObs, error) {
 	obs := make([]reqidObs, n)
@@ -241,6 +326,7 @@ func execReqID(cs reqidCase, n int) ([]reqidObs, error) {
 				o := &obs[i]
 				_, _ = ic(mkctx(), "req", &grpc.UnaryServerInfo{FullMethod: "/svc.S/M"}, func(ctx context.Context, req any) (any, error) {
 					observeReqID(ctx, o)
+					observeReqIDMetadata(ctx, o)
 					return "resp", nil
 				})
 			}
@@ -250,6 +336,7 @@ func execReqID(cs reqidCase, n int) ([]reqidObs, error) {
 				o := &obs[i]
 				_ = ic(nil, &fakeStream{ctx: mkctx()}, &grpc.StreamServerInfo{FullMethod: "/svc.S/M"}, func(srv any, ss grpc.ServerStream) error {
 					observeReqID(ss.Context(), o)
+					observeReqIDMetadata(ss.Context(), o)
 					return nil
 				})
 			}
@@ -309,56 +396,21 @@ func reqidOverServer(cs reqidCase, h http.Handler) error {
 	return resp.Body.Close()
 }
 
-type truncation struct{ S, How string }
-
-// truncations returns the identifiers accepted as "v truncated to limit".
-func truncations(v string, limit int) []truncation {
-	if limit <= 0 {
-		return []truncation{{v, "whole"}}
+// truncate is the reference for "v truncated to the limit": the limit is a length, and the
+// length of a header / metadata value is its number of bytes (goa documents the option as
+// "truncating the request ID ... at the specified length" / "limiting x-request-id metadata
+// length"): the first min(len(v), limit) bytes of v, byte for byte, whatever the bytes are —
+// a cut may fall inside a multi-byte character, and bytes that are not UTF-8 stay as they are.
+// how: "whole" (nothing cut), "bytes" (cut at a character boundary or in ASCII),
+// "bytes-inside-char" (cut inside a multi-byte UTF-8 sequence).
+func truncate(v string, limit int) (s, how string) {
+	if limit <= 0 || len(v) <= limit {
+		return v, "whole"
 	}
-	var out []truncation
-	add := func(s, how string) {
-		if s == v {
-			how = "whole"
-		}
-		for _, x := range out {
-			if x.S == s {
-				return
-			}
-		}
-		out = append(out, truncation{s, how})
+	if utf8.ValidString(v) && !utf8.RuneStart(v[limit]) {
+		return v[:limit], "bytes-inside-char"
 	}
-	// bytes
-	if len(v) > limit {
-		add(v[:limit], "bytes")
-	} else {
-		add(v, "whole")
-	}
-	// runes
-	if utf8.RuneCountInString(v) > limit {
-		n, cut := 0, len(v)
-		for i := range v {
-			if n == limit {
-				cut = i
-				break
-			}
-			n++
-		}
-		add(v[:cut], "runes")
-	} else {
-		add(v, "whole")
-	}
-	// longest rune-aligned prefix within the byte limit
-	if len(v) > limit {
-		i := limit
-		for i > 0 && !utf8.RuneStart(v[i]) {
-			i--
-		}
-		if i > 0 {
-			add(v[:i], "rune-aligned")
-		}
-	}
-	return out
+	return v[:limit], "bytes"
 }
 
 func valueClass(v *string) string {
@@ -367,10 +419,28 @@ func valueClass(v *string) string {
 		return "absent"
 	case *v == "":
 		return "empty"
+	case !utf8.ValidString(*v):
+		return "non-utf8-bytes"
 	case len(*v) != utf8.RuneCountInString(*v):
 		return "multibyte"
 	}
 	return "ascii"
+}
+
+// looksGenerated: the identifier has the shape of goa's generated IDs (8 characters of the URL
+// base64 alphabet). Used only to name a deviation (inbound value altered vs. ignored), never
+// to decide whether there is one.
+func looksGenerated(id string) bool {
+	if len(id) != 8 {
+		return false
+	}
+	for i := 0; i < len(id); i++ {
+		c := id[i]
+		if !(c >= 'a' && c <= 'z' || c >= 'A' && c <= 'Z' || c >= '0' && c <= '9' || c == '-' || c == '_') {
+			return false
+		}
+	}
+	return true
 }
 
 func limitClass(limit *int, v string) string {
@@ -482,14 +552,21 @@ func checkReqID(cs reqidCase) (fails []failure, outcome string) {
 			continue
 		}
 		id := o.ID
+		// the context carries the request ID a second time on gRPC, in the incoming metadata the
+		// middleware rewrites: what is there must be the same (correct) ID, never another one
+		// (e.g. the untruncated inbound value). Absence is an outcome, not a verdict.
+		for _, m := range o.MD {
+			if m != id {
+				addTrunc("metadata-id-differs-from-context-id", fmt.Sprintf("request %d: incoming metadata x-request-id is %q (% x), the context's request ID is %q (% x)", i, m, m, id, id), id)
+				break
+			}
+		}
 		isTrunc := func(v *string) (bool, string) {
 			if v == nil || *v == "" {
 				return false, ""
 			}
-			for _, t := range truncations(*v, limit) {
-				if t.S == id {
-					return true, t.How
-				}
+			if t, how := truncate(*v, limit); t == id {
+				return true, how
 			}
 			return false, ""
 		}
@@ -501,15 +578,18 @@ func checkReqID(cs reqidCase) (fails []failure, outcome string) {
 			switch {
 			case ok:
 				g = "inbound-" + how
-			case nonEmptyPrefixOf(id, trusted) && limit > 0 && len(id) > limit && utf8.RuneCountInString(id) > limit:
+			case nonEmptyPrefixOf(id, trusted) && limit > 0 && len(id) > limit:
 				g = "longer-than-limit"
-				addTrunc(g, fmt.Sprintf("request %d: ID %q exceeds the limit %d (inbound %q)", i, id, limit, tv), id)
+				addTrunc(g, fmt.Sprintf("request %d: ID %q is %d bytes long, the limit is %d (inbound %q)", i, id, len(id), limit, tv), id)
 			case nonEmptyPrefixOf(id, trusted):
 				g = "truncated-too-short"
 				addTrunc(g, fmt.Sprintf("request %d: ID %q is a shorter prefix than the limit %d allows (inbound %q)", i, id, limit, tv), id)
 			case derived:
 				g = "other-header-used"
 				add(g, fmt.Sprintf("request %d: ID %q comes from the header that is not the trusted one", i, id))
+			case !looksGenerated(id):
+				g = "inbound-altered"
+				addTrunc(g, fmt.Sprintf("request %d: ID %q (% x) is not a prefix of the trusted inbound value %q (% x), limit %d", i, id, id, tv, tv, limit), id)
 			default:
 				g = "trusted-inbound-ignored"
 				add(g, fmt.Sprintf("request %d: ID %q is not the trusted inbound value %q (limit %d)", i, id, tv, limit))
@@ -535,7 +615,10 @@ func checkReqID(cs reqidCase) (fails []failure, outcome string) {
 				g = "x-request-id-honoured"
 			case derived:
 				g = "bad-truncation"
-				addTrunc(g, fmt.Sprintf("request %d: ID %q is neither fresh nor an inbound value truncated to %d", i, id, limit), id)
+				addTrunc(g, fmt.Sprintf("request %d: ID %q is neither fresh nor an inbound value truncated to %d bytes", i, id, limit), id)
+			case !looksGenerated(id):
+				g = "inbound-altered"
+				addTrunc(g, fmt.Sprintf("request %d: ID %q (% x) is neither fresh nor a prefix of an inbound value", i, id, id), id)
 			case !seen.fresh(id):
 				g = "not-fresh"
 				add(g, fmt.Sprintf("request %d: ID %q was already issued", i, id))
@@ -559,7 +642,19 @@ func checkReqID(cs reqidCase) (fails []failure, outcome string) {
 	if cs.Via != "" {
 		via = " via=" + cs.Via
 	}
-	return fails, fmt.Sprintf("reqid %s%s expect=%s got=%s name=%s sent=%s", cs.Transport, via, expect, got, nameClass, sent)
+	md := ""
+	if cs.Transport != "http" && len(obs) > 0 {
+		md = " metadata-id=absent"
+		if len(obs[0].MD) > 0 {
+			md = " metadata-id=same-as-context"
+			for _, m := range obs[0].MD {
+				if m != obs[0].ID {
+					md = " metadata-id=differs"
+				}
+			}
+		}
+	}
+	return fails, fmt.Sprintf("reqid %s%s expect=%s got=%s inbound=%s name=%s sent=%s%s", cs.Transport, via, expect, got, valueClass(trusted), nameClass, sent, md)
 }
 
 func strp(s string) *string { return &s }
@@ -579,7 +674,19 @@ func optLists() [][]string {
 	return out
 }
 
-// limitsFor returns the limit domain for an inbound value (nil = option absent).
+func isASCII(v string) bool {
+	for i := 0; i < len(v); i++ {
+		if v[i] >= 0x80 {
+			return false
+		}
+	}
+	return true
+}
+
+// limitsFor returns the limit domain for an inbound value (nil = option absent): 0, 1 and the
+// byte length of the value -1, +0, +1 (and the same around its rune count); for a value with
+// bytes >= 0x80 every limit 0..len+1, so that a cut falls before, inside (at every offset),
+// between and after every multi-byte character / non-UTF-8 byte. Thorough: also 0..10.
 func limitsFor(v *string, thorough bool) []*int {
 	out := []*int{nil}
 	seen := map[int]bool{}
@@ -593,19 +700,58 @@ func limitsFor(v *string, thorough bool) []*int {
 		for n := 0; n <= 10; n++ {
 			add(n)
 		}
-		return out
 	}
 	add(0)
 	add(1)
-	if v != nil {
-		l, r := len(*v), utf8.RuneCountInString(*v)
-		for _, n := range []int{l - 1, l, l + 1, r - 1, r, r + 1} {
+	if v == nil {
+		add(2)
+		return out
+	}
+	l, r := len(*v), utf8.RuneCountInString(*v)
+	if !isASCII(*v) {
+		for n := 0; n <= l+1; n++ {
 			add(n)
 		}
-	} else {
-		add(2)
+		return out
+	}
+	for _, n := range []int{l - 1, l, l + 1, r - 1, r, r + 1} {
+		add(n)
 	}
 	return out
+}
+
+// inboundValues is the menu of inbound header / metadata values. Header and metadata values
+// are byte strings: besides ASCII, well-formed multi-byte UTF-8 (2-, 3- and 4-byte
+// characters, at the start, in the middle and at the end) and bytes >= 0x80 that are not
+// UTF-8 (Latin-1 text, opaque bytes, a cut-off or overlong sequence) — all legal in an HTTP
+// field value (obs-text) and accepted by net/http's parser, server and client.
+func inboundValues(thorough bool) (values []*string, nonASCII []string) {
+	values = []*string{nil}
+	if thorough {
+		// every inbound length 0..10 against every limit 0..10 (covers limits 0..n, lengths 0..n+2 for n <= 8)
+		base := "ab.defghij"
+		for n := 0; n <= len(base); n++ {
+			values = append(values, strp(base[:n]))
+		}
+	} else {
+		values = append(values, strp(""), strp("r."), strp("req.7f3"), strp("request.id-0123456789abcdef"))
+	}
+	nonASCII = []string{
+		"é€.x😀",           // 2-, 3- and 4-byte characters
+		"café-42",         // one 2-byte character inside ASCII
+		"日本",              // 3-byte characters only
+		"caf\xe9-42",      // Latin-1: a lone byte >= 0x80
+		"\xff\xfe\xfdabc", // opaque bytes that are never UTF-8
+		"id\xe2\x82",      // a multi-byte sequence cut off by the sender
+	}
+	if thorough {
+		nonASCII = append(nonASCII, "é", "é.", "a€", "€.b", "😀", "x😀.", "é€😀", "日本語.テキスト",
+			"\x80", "a\xc3", "\xf0\x9f\x98", "x\xc0\xafy", "\xe9\xe8\xe0", "ab\x80cd\xbfef", "\xed\xa0\x80.s")
+	}
+	for _, m := range nonASCII {
+		values = append(values, strp(m))
+	}
+	return values, nonASCII
 }
 
 // reqidNames is the menu of configured custom header names: every spelling of the two bases.
@@ -630,30 +776,21 @@ func hasAtom(list []string, a string) bool {
 
 func runReqID(c *core.Ctx) {
 	defer closeReqidServer()
-	var values []*string
 	names := reqidNames()
-	if c.Thorough() {
-		// every inbound length 0..10 against every limit 0..10 (covers limits 0..n, lengths 0..n+2 for n <= 8)
-		values = append(values, nil)
-		base := "ab.defghij"
-		for n := 0; n <= len(base); n++ {
-			values = append(values, strp(base[:n]))
-		}
-		multi := []string{"é", "é.", "a€", "€.b", "😀", "x😀.", "é€😀", "日本語.テキスト"}
-		for _, m := range multi {
-			values = append(values, strp(m))
-		}
-	} else {
-		values = []*string{nil, strp(""), strp("r."), strp("req.7f3"), strp("request.id-0123456789abcdef"), strp("é€.x😀")}
+	values, nonASCII := inboundValues(c.Thorough())
+	var shown []string
+	for _, m := range nonASCII {
+		shown = append(shown, fmt.Sprintf("%+q", m))
 	}
 	decoys := []*string{nil, strp("decoy.value")}
 	lists := optLists()
 	transports := []string{"http", "grpc-unary", "grpc-stream"}
 	c.Note("reqid_alphabet", map[string]any{"transports": len(transports), "option_lists": len(lists), "inbound_values": len(values),
 		"configured_names": names, "name_spellings": spellingKinds,
-		"sent_spellings": "the header carrying the value is sent under each of the 5 spellings of its name (the other header canonically)",
-		"limits":         "option absent, 0, 1, len-1, len, len+1 of the inbound value in bytes and in runes (thorough: 0..10); limit option first or last",
-		"trust":          "every option list of length 0..2 over {UseRequestID(true), UseRequestID(false), RequestIDHeader(name)}: trust on/off for the default and for each custom name"})
+		"sent_spellings":                       "the header carrying the value is sent under each of the 5 spellings of its name (the other header canonically)",
+		"inbound_values_with_bytes_above_0x7f": shown,
+		"limits":                               "option absent, 0, 1, len-1, len, len+1 of the inbound value in bytes and in runes; for values with bytes >= 0x80 every limit 0..len+1 (cuts inside every multi-byte character); thorough: also 0..10; limit option first or last",
+		"trust":                                "every option list of length 0..2 over {UseRequestID(true), UseRequestID(false), RequestIDHeader(name)}: trust on/off for the default and for each custom name"})
 	var cases, serverCases int64
 	one := func(cs reqidCase) {
 		key, _ := json.Marshal(cs)
@@ -691,7 +828,7 @@ func runReqID(c *core.Ctx) {
 					return
 				}
 				alias := strings.EqualFold(cn, defaultReqIDHeader)
-				for vi, v := range values {
+				for _, v := range values {
 					for _, lim := range limitsFor(v, c.Thorough()) {
 						for _, lf := range []bool{false, true} {
 							if lim == nil && lf {
@@ -719,7 +856,7 @@ func runReqID(c *core.Ctx) {
 										one(cs)
 										// the same through a real server and client: one representative of
 										// the value / decoy / option-order dimensions, everything else complete
-										if tr == "http" && !lf && d == nil && v != nil && vi == len(values)/2 {
+										if tr == "http" && !lf && d == nil && v != nil && (*v == "req.7f3" || *v == "ab.defg" || (!isASCII(*v) && sk == "canonical")) {
 											cs.Via = "server"
 											one(cs)
 										}
